@@ -118,7 +118,16 @@ fn code_lists(codes: &[&str], info_ok: &str, info_bad: &str, pairs: bool) -> Vec
     for c in codes { v.push((c.to_string(), vec![c.to_string()])); }
     v.push((format!("{info_ok}/info"), vec![format!("{info_ok}/INFO")])); v.push((format!("{info_bad}/info"), vec![format!("{info_bad}/INFO")]));
     v.push(("ZZZZ".into(), vec!["ZZZZ".into()]));
-    if pairs { for a in codes { for b in codes { v.push((format!("{a}+{b}"), vec![a.to_string(), b.to_string()])); } } }
+    if pairs {
+        for a in codes { for b in codes { v.push((format!("{a}+{b}"), vec![a.to_string(), b.to_string()])); } }
+        // several repeated codes at once (the order of several errors of the same rule must be stable)
+        for (i, a) in codes.iter().enumerate().take(4) { for b in codes.iter().skip(i + 1).take(3) {
+            v.push((format!("{a}+{a}+{b}+{b}"), vec![a.to_string(), a.to_string(), b.to_string(), b.to_string()]));
+            v.push((format!("{a}+{b}+{a}+{b}"), vec![a.to_string(), b.to_string(), a.to_string(), b.to_string()]));
+            v.push((format!("{a}+{b}+{b}"), vec![a.to_string(), b.to_string(), b.to_string()]));
+        } }
+        if codes.len() >= 3 { v.push(("three-repeated".into(), vec![codes[0].to_string(), codes[0].to_string(), codes[1].to_string(), codes[1].to_string(), codes[2].to_string(), codes[2].to_string()])); }
+    }
     v
 }
 
@@ -330,6 +339,20 @@ fn judge_coherence<T: SwiftMessageBody + serde::de::DeserializeOwned>(mt: &str, 
         if let Ok((errs, valid)) = &first[k] {
             if let Some(v) = valid { if *v != full.is_empty() { col.add(format!("C13/MT{mt}/flag-mismatch:{}/{}", names[k], full.first().cloned().unwrap_or_default()), order, || format!("{} says valid={v}, full list {:?}", names[k], full), case); continue; } }
             if errs != full { col.add(format!("C13/MT{mt}/flag-mismatch:{}/{}", names[k], errs.iter().zip(full.iter()).find(|(a, b)| a != b).map(|(a, _)| a.clone()).or_else(|| errs.get(full.len()).cloned()).or_else(|| full.get(errs.len()).cloned()).unwrap_or_default()), order, || format!("{} reports {:?}, full list {:?}", names[k], errs, full), case); }
+        }
+    }
+    // same errors in the same order on every call, judged on the whole error values (two errors of one
+    // rule have the same code, so a swap is invisible in the code lists compared above): every state
+    for stop in [false, true] {
+        let render = || guarded(|| m.fields.validate_network_rules(stop).iter().map(|e| format!("{e:?}")).collect::<Vec<String>>());
+        if let Ok(r0) = render() {
+            for _ in 0..3 {
+                CALLS.fetch_add(1, std::sync::atomic::Ordering::Relaxed);
+                if let Ok(r) = render() { if r != r0 {
+                    let code = full.first().cloned().unwrap_or_default();
+                    col.add(format!("C13/MT{mt}/unstable-order/{code}"), order, || format!("validate_network_rules({stop}) returned {:?} and then {:?}", r0, r), case); break;
+                } }
+            }
         }
     }
     if snapshot(m) != before { col.add(format!("C13/MT{mt}/mutated/after-first-calls"), order, || "message changed by validation".into(), case); return; }
